@@ -390,12 +390,11 @@ class PrettyPrinter:
         if isinstance(value, bool):
             return str(value).upper()
 
-        if any(i in ["enum"] for i in attr_props):
-            if isinstance(value, dict) and not value:
-                raise ValueError(
-                    f"The property {attr} has an empty dictionary as a value"
-                )
+        if isinstance(value, dict) and not value:
+            # e.g. created by reading a missing key from a DefaultOrderedDict
+            raise ValueError(f"The property {attr} has an empty dictionary as a value")
 
+        if any(i in ["enum"] for i in attr_props):
             if not isinstance(value, numbers.Number):
                 if attr == "compop":
                     return self.quoter.add_quotes(str(value))
